@@ -154,6 +154,18 @@ pub fn gen_tags(rng: &mut Rng, n: usize, ctx: &Ctx, prefix: &str) -> Vec<InTag> 
             });
         }
     }
+    // Tags are a multiset: the same key and value may be attached twice, to one
+    // sample or to neighbouring ones (a marker emitted by two upstream stages, a
+    // repeated "burst" flag). Each copy has to arrive exactly once.
+    if rng.chance(1, 3) {
+        for _ in 0..rng.range(1, 3) {
+            let mut twin = t[rng.below(t.len())].clone();
+            if rng.chance(1, 2) && twin.pos + 1 < n {
+                twin.pos += 1;
+            }
+            t.push(twin);
+        }
+    }
     t.sort_by_key(|x| x.pos);
     t
 }
